@@ -141,3 +141,43 @@ Definition dec_cell (s : str) : cell :=
 Definition entry_deref (a : list str) : list str :=
   let env := map dec_cell a in
   let r := deref 1100 env 0 0 in triple show_Z r r false.
+
+(** aderef: expr, nscalars, the scalars, then per array: count and its elements.  An expression is a comma-separated
+    prefix token list: l<int> | v<index> | e<array>,<subscript expression> *)
+Fixpoint parse_aexp (fuel : nat) (toks : list str) : aexp * list str :=
+  match fuel with
+  | O => (ALit 0, [])
+  | S f =>
+    match toks with
+    | (108%N :: v) :: r => (ALit (dec_int v), r)
+    | (118%N :: i) :: r => (AVar (Z.to_nat (dec_int i)), r)
+    | (101%N :: a) :: r => let '(ix, r') := parse_aexp f r in (AElem (Z.to_nat (dec_int a)) ix, r')
+    | _ => (ALit 0, [])
+    end
+  end.
+Definition dec_aexp (s : str) : aexp :=
+  let toks := split_on 44%N s [] in fst (parse_aexp (S (length toks)) toks).
+
+Fixpoint take_fields (n : nat) (l : list str) : list str * list str :=
+  match n, l with
+  | O, _ => ([], l)
+  | S n', x :: l' => let '(a, b) := take_fields n' l' in (x :: a, b)
+  | S _, [] => ([], [])
+  end.
+Fixpoint dec_arrays (fuel : nat) (l : list str) : list (list aexp) :=
+  match fuel with
+  | O => []
+  | S f =>
+    match l with
+    | [] => []
+    | n :: r => let '(cells, r') := take_fields (dec_nat n) r in map dec_aexp cells :: dec_arrays f r'
+    end
+  end.
+Definition entry_aderef (a : list str) : list str :=
+  match a with
+  | e :: n :: r =>
+    let '(sc, r') := take_fields (dec_nat n) r in
+    let env := {| scalars := map dec_aexp sc; arrays := dec_arrays (length r') r' |} in
+    let res := aeval 6000 env (dec_aexp e) 0 in triple show_Z res res false
+  | _ => [lit "?args"]
+  end.
